@@ -997,11 +997,12 @@ func (w *world) final() {
 		w.logf("RELEASE VIOLATED: %s", relWhat)
 	}
 	// progress: every node in turn runs one more increment alone, no faults, FIFO delivery, 3 attempts
+	order := w.probeOrder(locked) // before probing starts: it depends on the roles the nodes had so far
 	w.probing = true
-	w.logf("-- probe phase: each node in turn runs one increment alone")
+	w.logf("-- probe phase: each node in turn runs one increment alone, in the order %v", order)
 	ok := 0
 	lockedAlone := ""
-	for _, ni := range w.probeOrder(locked) {
+	for _, ni := range order {
 		nd := w.nodes[ni]
 		nd.script = append(nd.script[:len(nd.script):len(nd.script)], "rmw")
 		nd.sec = len(nd.script) - 1
@@ -1057,14 +1058,15 @@ func (w *world) probeOrder(first int) []int {
 		order = append(order, first)
 	}
 	var passive []int
-	for i := range w.nodes {
-		if i == first {
-			continue
-		}
-		if w.passive(i) {
-			passive = append(passive, i)
-		} else {
+	_, canon := w.canonKey() // interchangeable writers in an order that depends on their state only
+	for _, i := range canon {
+		if i != first {
 			order = append(order, i)
+		}
+	}
+	for i := range w.nodes {
+		if i != first && w.passive(i) {
+			passive = append(passive, i)
 		}
 	}
 	if len(passive) > 1 {
@@ -1158,7 +1160,9 @@ type keyCtx struct {
 	ds      [8]resources.VerifTwoPCDump
 	stMax   [8][8]int64
 	accFrom [8]int
-	slRank  []int // for w.sleepers[i]: its position in deadline order
+	slRank  []int  // for w.sleepers[i]: its position in deadline order
+	lab     [8]int // label printed instead of a node index (identity unless writer symmetry is being tried)
+	order   []int  // non-passive nodes in label order
 }
 
 func (w *world) newKeyCtx() *keyCtx {
@@ -1192,6 +1196,12 @@ func (w *world) newKeyCtx() *keyCtx {
 	for _, s := range w.sleepers {
 		k.times[s.from].add(s.time)
 	}
+	for i := range w.nodes {
+		k.lab[i] = i
+		if !w.passive(i) {
+			k.order = append(k.order, i)
+		}
+	}
 	k.slRank = make([]int, len(w.sleepers))
 	for i, a := range w.sleepers {
 		for j, b := range w.sleepers {
@@ -1222,7 +1232,11 @@ func (w *world) nodeSeg(k *keyCtx, i int) {
 	if d.AcceptedPreCommit {
 		s := k.accFrom[i]
 		w.kStr(" acc")
-		w.kInt(s)
+		if s >= 0 {
+			w.kInt(k.lab[s])
+		} else {
+			w.kInt(s)
+		}
 		w.kStr(",")
 		w.kInt(d.Accepted.Version)
 		w.kStr(",")
@@ -1235,12 +1249,14 @@ func (w *world) nodeSeg(k *keyCtx, i int) {
 		w.kBool(nd.abortIgnored[d.Accepted.SenderTime])
 	}
 	w.kStr(" st")
-	for s := 0; s < k.n; s++ {
-		if k.stMax[i][s] >= 0 {
-			w.kInt(s)
-			w.kStr(":")
-			w.kInt(k.times[s].rank(k.stMax[i][s]))
-			w.kStr(",")
+	for l := 0; l < k.n; l++ {
+		for s := 0; s < k.n; s++ {
+			if k.lab[s] == l && k.stMax[i][s] >= 0 {
+				w.kInt(l)
+				w.kStr(":")
+				w.kInt(k.times[s].rank(k.stMax[i][s]))
+				w.kStr(",")
+			}
 		}
 	}
 	w.kStr(" s")
@@ -1270,8 +1286,14 @@ func (w *world) nodeSeg(k *keyCtx, i int) {
 	}
 	if len(nd.bcasts) > 0 {
 		var bs []string
-		for _, bc := range nd.bcasts {
-			bs = append(bs, fmt.Sprintf("%d.%d.%d:%d/%d/%d/%d", bc.typ, bc.version, k.times[i].rank(bc.time), bc.acc, bc.rej, bc.errs, bc.outstanding))
+		for bi, bc := range nd.bcasts {
+			// the tallies matter only while the broadcast loop is still counting replies: the latest broadcast
+			// of the operation in flight; of a decided broadcast only the stragglers remain
+			if nd.op != nil && bc.owner == nd.op && bi == len(nd.bcasts)-1 {
+				bs = append(bs, fmt.Sprintf("%d.%d.%d:%d/%d/%d/%d", bc.typ, bc.version, k.times[i].rank(bc.time), bc.acc, bc.rej, bc.errs, bc.outstanding))
+			} else {
+				bs = append(bs, fmt.Sprintf("%d.%d.%d:done/%d", bc.typ, bc.version, k.times[i].rank(bc.time), bc.outstanding))
+			}
 		}
 		sort.Strings(bs)
 		w.kStr(" bc")
@@ -1290,10 +1312,10 @@ func (w *world) nodeSeg(k *keyCtx, i int) {
 // msgSeg renders a pending message; the receiver's index is left out when withTo is false.
 func (w *world) msgSeg(k *keyCtx, m *msg, withTo bool) string {
 	b := make([]byte, 0, 48)
-	b = strconv.AppendInt(b, int64(m.from), 10)
+	b = strconv.AppendInt(b, int64(k.lab[m.from]), 10)
 	b = append(b, '>')
 	if withTo {
-		b = strconv.AppendInt(b, int64(m.to), 10)
+		b = strconv.AppendInt(b, int64(k.lab[m.to]), 10)
 	}
 	b = append(b, '.')
 	b = strconv.AppendInt(b, int64(m.req.RequestType), 10)
@@ -1331,10 +1353,10 @@ func (w *world) sleeperSeg(k *keyCtx, i int, withTo bool) string {
 	b := make([]byte, 0, 24)
 	b = strconv.AppendInt(b, int64(k.slRank[i]), 10)
 	b = append(b, ':')
-	b = strconv.AppendInt(b, int64(s.from), 10)
+	b = strconv.AppendInt(b, int64(k.lab[s.from]), 10)
 	b = append(b, '>')
 	if withTo {
-		b = strconv.AppendInt(b, int64(s.to), 10)
+		b = strconv.AppendInt(b, int64(k.lab[s.to]), 10)
 	}
 	b = append(b, '.')
 	b = strconv.AppendInt(b, int64(s.typ), 10)
@@ -1389,19 +1411,122 @@ func (w *world) passiveSigs() map[int]string {
 	return out
 }
 
+// symClasses returns the groups of non-passive nodes that are interchangeable in Sym configurations:
+// same script, increments only (a blind write carries the node's index).
+func (w *world) symClasses() [][]int {
+	if !w.cfg.Sym || w.probing {
+		return nil
+	}
+	by := map[string][]int{}
+	var names []string
+	for i, sc := range w.cfg.Scripts {
+		if len(sc) == 0 {
+			continue
+		}
+		pure := true
+		for _, x := range sc {
+			if x != "rmw" {
+				pure = false
+			}
+		}
+		if !pure {
+			continue
+		}
+		n := strings.Join(sc, "+")
+		if len(by[n]) == 0 {
+			names = append(names, n)
+		}
+		by[n] = append(by[n], i)
+	}
+	var out [][]int
+	for _, n := range names {
+		if len(by[n]) > 1 {
+			out = append(out, by[n])
+		}
+	}
+	return out
+}
+
+func permutations(a []int) [][]int {
+	if len(a) <= 1 {
+		return [][]int{append([]int(nil), a...)}
+	}
+	var out [][]int
+	for i := range a {
+		rest := append(append([]int(nil), a[:i]...), a[i+1:]...)
+		for _, p := range permutations(rest) {
+			out = append(out, append([]int{a[i]}, p...))
+		}
+	}
+	return out
+}
+
 // key renders everything the future of the execution depends on, except absolute virtual time:
 // SenderTimes are replaced by their rank among the times of the same sender that are still referenced.
-// In Sym configurations passive replicas appear as a sorted multiset of signatures, so two states that
-// differ only by a permutation of passive replicas have the same key.
+// In Sym configurations passive replicas appear as a sorted multiset of signatures, and the smallest
+// rendering over all relabelings of interchangeable writers is taken, so two states that differ only by a
+// permutation of interchangeable nodes have the same key.
 func (w *world) key() string {
+	key, _ := w.canonKey()
+	return key
+}
+
+// canonKey returns the key and the order of the non-passive nodes under the relabeling that produced it.
+func (w *world) canonKey() (string, []int) {
 	k := w.newKeyCtx()
+	classes := w.symClasses()
+	if len(classes) == 0 {
+		return w.keyWith(k), k.order
+	}
+	// all combinations of one permutation per class
+	assign := [][]int{nil}
+	for _, cl := range classes {
+		var next [][]int
+		for _, pre := range assign {
+			for _, p := range permutations(cl) {
+				next = append(next, append(append([]int(nil), pre...), p...))
+			}
+		}
+		assign = next
+	}
+	var members []int
+	for _, cl := range classes {
+		members = append(members, cl...)
+	}
+	best, bestOrder := "", []int(nil)
+	for _, a := range assign {
+		// member members[j] takes the label (= index) of a[j]'s slot: node a[j] is printed as members[j]
+		for i := range w.nodes {
+			k.lab[i] = i
+		}
+		for j, nd := range a {
+			k.lab[nd] = members[j]
+		}
+		k.order = k.order[:0]
+		for l := 0; l < k.n; l++ {
+			for i := range w.nodes {
+				if k.lab[i] == l && !w.passive(i) {
+					k.order = append(k.order, i)
+				}
+			}
+		}
+		s := w.keyWith(k)
+		if bestOrder == nil || s < best {
+			best, bestOrder = s, append([]int(nil), k.order...)
+		}
+	}
+	return best, bestOrder
+}
+
+func (w *world) keyWith(k *keyCtx) string {
 	w.kb = w.kb[:0]
+	for _, i := range k.order {
+		w.nodeSeg(k, i)
+	}
 	var sigs []string
 	for i := range w.nodes {
 		if w.passive(i) {
 			sigs = append(sigs, w.passiveSig(k, i))
-		} else {
-			w.nodeSeg(k, i)
 		}
 	}
 	if len(sigs) > 0 {
@@ -1453,7 +1578,7 @@ func (w *world) key() string {
 			w.kStr(" W")
 			w.kInt(v)
 			w.kStr("=")
-			w.kInt(x.node)
+			w.kInt(k.lab[x.node])
 			w.kStr(".")
 			w.kInt(x.sec)
 			w.kStr(".")
@@ -1493,11 +1618,10 @@ func (w *world) run() {
 		if len(faults) > 0 || len(free) > 1 {
 			// only at real choice points, and before choosing: a re-run of a recorded schedule then never
 			// prunes (every Visit precedes a recorded choice), forced continuations are never cut
-			fresh := !c.Replaying()
-			if !c.Visit(w.key()) {
-				c.Prune()
-			}
-			if fresh {
+			if !c.Replaying() { // inside the replayed prefix Visit never prunes: do not pay for the key
+				if !c.Visit(w.key()) {
+					c.Prune()
+				}
 				w.cnt.statesExpanded.Add(1)
 			}
 		}
